@@ -70,6 +70,15 @@ type Config struct {
 	// (nats.Connect, DrainTimeout 30s) | "bare" (nats.Options literal,
 	// DrainTimeout 0) | a duration for nats.DrainTimeout(d).
 	DrainTO string `json:"conn_drain_timeout,omitempty"`
+	// Busy: number of subjects (the first Busy of NSubj) that get traffic;
+	// the others are idle subscriptions of the server (0 = all).
+	Busy int `json:"busy_subjects,omitempty"`
+	// HWM: WithHighWatermark(d) ("" = builder default 5s).  The library's
+	// default request-received handler (time stamp) is always in effect:
+	// called from the counting handler, or - PureRecv - left to the builder
+	// (then "received" is not observable and stands for "started").
+	HWM      string `json:"high_watermark,omitempty"`
+	PureRecv bool   `json:"builder_default_received_handler,omitempty"`
 	// Probe (never in the default sweep): sole worker calls Stop with more
 	// requests behind it than the queue holds.
 	SoleProbe bool `json:"sole_worker_probe,omitempty"`
@@ -266,7 +275,11 @@ func (s *scen) snap() Snap {
 	s.proc.mu.Lock()
 	e, x := s.proc.entered, s.proc.exited
 	s.proc.mu.Unlock()
-	return Snap{Received: s.received.Load(), Started: s.started.Load(), Finished: s.finished.Load(), Entered: e, Exited: x}
+	rcv := s.received.Load()
+	if s.c.PureRecv { // not observable: lower bound
+		rcv = s.started.Load()
+	}
+	return Snap{Received: rcv, Started: s.started.Load(), Finished: s.finished.Load(), Entered: e, Exited: x}
 }
 
 func (s *scen) mark(ev string) {
@@ -423,6 +436,10 @@ func runScenario(ns *rig.NatsServer, c Config) (res *Result) {
 	for i := 0; i < c.NSubj; i++ {
 		subjects = append(subjects, fmt.Sprintf("%s.req.%d", base, i))
 	}
+	busy := c.Busy
+	if busy <= 0 || busy > len(subjects) {
+		busy = len(subjects)
+	}
 	replyPrefix := base + ".r."
 	colSub, err := colConn.SubscribeSync(replyPrefix + "*")
 	if err != nil {
@@ -443,17 +460,20 @@ func runScenario(ns *rig.NatsServer, c Config) (res *Result) {
 
 	var workerStop func() // set below, before any request is published
 	pf := frugal.NewFProtocolFactory(thrift.NewTBinaryProtocolFactoryConf(nil))
-	server := frugal.NewFNatsServerBuilder(srvConn, s.proc, pf, subjects).
+	hwm := 5 * time.Second // builder default
+	if c.HWM != "" {
+		d, perr := time.ParseDuration(c.HWM)
+		if perr != nil {
+			return s.inconclusive("bad high watermark %q", c.HWM)
+		}
+		hwm = d
+	}
+	defStarted := frugal.NewDefaultFNatsServerOnRequestStarted(hwm)
+	builder := frugal.NewFNatsServerBuilder(srvConn, s.proc, pf, subjects).
 		WithWorkerCount(uint(c.W)).
 		WithQueueLength(uint(c.Q)).
-		WithRequestReceivedEventHandler(func(props map[interface{}]interface{}) {
-			// one subject => one subscription => callbacks in publication
-			// order: the (K1+1)-th is the shutdown request S
-			if n := s.received.Add(1); c.StopFrom != "" && n == int64(c.K1+1) {
-				props[shutdownKey{}] = true
-			}
-		}).
 		WithRequestStartedEventHandler(func(props map[interface{}]interface{}) {
+			defStarted(props) // what the builder would install
 			s.started.Add(1)
 			if c.StopFrom == "started" && props[shutdownKey{}] == true {
 				workerStop()
@@ -464,8 +484,21 @@ func runScenario(ns *rig.NatsServer, c Config) (res *Result) {
 			if c.StopFrom == "finished" && props[shutdownKey{}] == true {
 				workerStop()
 			}
-		}).
-		Build()
+		})
+	if c.HWM != "" {
+		builder = builder.WithHighWatermark(hwm)
+	}
+	if !c.PureRecv {
+		builder = builder.WithRequestReceivedEventHandler(func(props map[interface{}]interface{}) {
+			frugal.DefaultFNatsServerOnRequestReceived(props) // the library's default (time stamp), then count
+			// one busy subject => one subscription with traffic => callbacks in
+			// publication order: the (K1+1)-th is the shutdown request S
+			if n := s.received.Add(1); c.StopFrom != "" && n == int64(c.K1+1) {
+				props[shutdownKey{}] = true
+			}
+		})
+	}
+	server := builder.Build()
 	if c.StopFrom == "processor" {
 		s.proc.onS = func() { workerStop() }
 	}
@@ -527,7 +560,7 @@ func runScenario(ns *rig.NatsServer, c Config) (res *Result) {
 			payload[8] = 2
 		}
 		frame := wire.BuildFrame([]wire.Pair{{Name: "_opid", Value: strconv.FormatUint(id, 10)}, {Name: "_cid", Value: "c20-" + strconv.FormatUint(id, 10)}}, payload)
-		err := pubConn.PublishRequest(subjects[int(id)%len(subjects)], replyPrefix+strconv.FormatUint(id, 10), frame)
+		err := pubConn.PublishRequest(subjects[int(id)%busy], replyPrefix+strconv.FormatUint(id, 10), frame)
 		if err == nil && c.Share && id%4 == 0 {
 			err = pubConn.Publish(base+".other", []byte("x"))
 		}
@@ -687,6 +720,9 @@ func runScenario(ns *rig.NatsServer, c Config) (res *Result) {
 			// everything, if k is smaller than that)
 			wantStarted := int64(imin(c.K, c.W))
 			wantReceived := int64(imin(c.K, c.W+c.Q+1))
+			if c.PureRecv {
+				wantReceived = 0
+			}
 			if !s.awaitCond(func() bool { return s.started.Load() >= wantStarted && s.received.Load() >= wantReceived }, serveDone) {
 				r := s.inconclusive("gate precondition (started>=%d received>=%d) not reached: %+v", wantStarted, wantReceived, s.snap())
 				r.Restart = true
